@@ -243,6 +243,11 @@ fn tokenize_a2ml_nested(
             let (mut tokresult, incfile_text) =
                 tokenize_include(filename, input, &mut bytepos, include_depth)?;
             complete_string.push_str(&incfile_text);
+            if !incfile_text.ends_with('\n') {
+                // the include directive stands for the tokens of the included file. Without a line break
+                // a line comment at the end of the included text would also hide the text after the directive
+                complete_string.push('\n');
+            }
             copypos = bytepos;
 
             // append the tokens from the included file(s)
